@@ -4,7 +4,7 @@ from typing import List, Tuple
 from cminx.config import Settings
 
 CMD = @@CMD@@            # "set" | "option"
-CLS = @@CLS@@            # token class of each value: id | unq | unq_esc | quo | quo_esc | quo_empty | bra | ref
+CLS = @@CLS@@            # token class of each value: id | unq | unq_esc | quo | quo_esc | quo_nl | quo_empty | bra | ref
 L = @@L@@                # length of the symbolic part of every piece
 DOCUMENTED = @@DOCUMENTED@@
 NCP = @@NCP@@            # = L (name) + L per value (0 for quo_empty) + 1 (doc char)
@@ -30,7 +30,7 @@ def _ok(cps) -> bool:
         n = _lens()[i]
         for c in cps[p:p + n]:
             k = CLS[i]
-            if k in ("quo", "quo_esc"):
+            if k in ("quo", "quo_esc", "quo_nl"):
                 if c in (34, 92, 10, 13): return False
             elif k == "bra":
                 if c in (93, 10, 13): return False
@@ -45,6 +45,7 @@ def _ok(cps) -> bool:
 def _text(k, x):
     if k == "quo": return (Q + x + Q, hc.QUO)
     if k == "quo_esc": return (Q + x + BS + Q + Q, hc.QUO)
+    if k == "quo_nl": return (Q + x + BS + "n" + BS + "t" + BS + BS + Q, hc.QUO)      # the escape sequences \n \t \\ stay as written
     if k == "quo_empty": return (Q + Q, hc.QUO)
     if k == "unq_esc": return (x + BS + Q, hc.UNQ)
     if k == "bra": return ("[[" + x + "]]", hc.BRA)
@@ -88,7 +89,7 @@ def check(cps: $$CPS$$) -> bool:
     args = [name] + [x for (x, t) in vals]
     if CMD == "set":
         if DOCUMENTED:
-            quoted = len(CLS) == 1 and CLS[0] in ("quo", "quo_esc", "quo_empty")
+            quoted = len(CLS) == 1 and CLS[0] in ("quo", "quo_esc", "quo_nl", "quo_empty")
             st.entries.append(delta.spec_set(args, cleaned, quoted_single=quoted))
     else:
         delta.step(st, DOCUMENTED, cleaned if DOCUMENTED else "", "option", args)
